@@ -125,6 +125,7 @@ class Interp:
         self.ghost_vals = {}
         self.final_env = None
         self.ghost_funcs = {}
+        self.try_depth = 0
 
     # ---------------------------------------------------------- utilities
     def fresh_const(self, base, sort):
@@ -145,6 +146,11 @@ class Interp:
             return
         if isinstance(goal, bool):
             goal = z3.BoolVal(goal)
+        if not _has_quant(goal):
+            # ground goal: resolve index-normalisation if-then-else terms
+            # under the path's length facts (keeps proofs insensitive to
+            # solver heuristics)
+            goal = self.ctx_simplify(z3.BoolVal(True), goal)
         self.sum_lemmas(goal)
         o = Obl(name, kind, self.func_stack[0], lineno or self.cur_line,
                 list(self.pc), goal, tuple(self.decisions[:self.dptr]))
@@ -249,14 +255,16 @@ class Interp:
             return False
         if self.spec:
             raise Unsupported("fork inside a contract expression")
-        if self.dptr < len(self.decisions):
-            d = self.decisions[self.dptr]
-            self.dptr += 1
-            self.add_pc(cond if d else z3.Not(cond))
-            return d
-        t_ok = self.feasible(cond)
-        f_ok = self.feasible(z3.Not(cond))
+        # feasibility first: a one-sided fork never consumes a recorded
+        # decision (otherwise the decision list of a re-execution would be
+        # applied to the wrong program points and paths would be lost)
+        t_ok, f_ok = self.feasible2(cond)
         if t_ok and f_ok:
+            if self.dptr < len(self.decisions):
+                d = self.decisions[self.dptr]
+                self.dptr += 1
+                self.add_pc(cond if d else z3.Not(cond))
+                return d
             self.decisions.append(True)
             self.new_forks.append(len(self.decisions) - 1)
             self.dptr += 1
@@ -269,6 +277,29 @@ class Interp:
             self.add_pc(z3.Not(cond))
             return False
         raise PathEnd()
+
+    def feasible2(self, cond):
+        """(cond feasible, not cond feasible) over the quantifier-free part
+        of the path condition; cached across re-executions (z3 terms are
+        hash-consed, names are deterministic)."""
+        qf = [f for f in self.pc if not _has_quant(f)]
+        key = (tuple(f.get_id() for f in qf), cond.get_id())
+        cache = self.V.feas_cache
+        if key in cache:
+            return cache[key]
+        self.stats.feas_checks += 1
+        s = z3.Solver()
+        s.set("timeout", 1500)
+        for f in qf:
+            s.add(f)
+        s.push()
+        s.add(cond)
+        t_ok = s.check() != z3.unsat
+        s.pop()
+        s.add(z3.Not(cond))
+        f_ok = s.check() != z3.unsat
+        cache[key] = (t_ok, f_ok)
+        return t_ok, f_ok
 
     def add_pc_checked(self, f):
         self.add_pc(f)
@@ -329,6 +360,13 @@ class Interp:
                          for i, t in enumerate(p[1]))
         if k == "Obj":
             return self.fresh_obj(p[1], name)
+        if k == "PyList":
+            ety, n = [x.strip() for x in p[1].rsplit(",", 1)]
+            return [self.fresh(ety, f"{name}[{i}]") for i in range(int(n))]
+        if k == "Path":
+            return self.V.lib.PathVal(name)
+        if k == "Pickler":
+            return self.V.lib.PicklerVal()
         if k == "Func":
             from .nplib import FuncVal
             f1 = z3.Function(self.namer.fresh(name + ".f1"), usort(p[1]),
@@ -459,7 +497,9 @@ class Interp:
                 return v != 0
             return True
         if isinstance(v, (Obj, Opaque, Closure, self.V.lib.FuncVal,
-                          self.V.lib.PoolVal, PkgFunc, BoundMethod)):
+                          self.V.lib.PoolVal, PkgFunc, BoundMethod,
+                          self.V.lib.PathVal, self.V.lib.PicklerVal,
+                          self.V.lib.LoadedVal)):
             return True
         raise Unsupported(f"truth value of {v!r}")
 
@@ -480,6 +520,7 @@ class Interp:
 
     def exec_stmt(self, st, env):
         self.cur_line = getattr(st, "lineno", self.cur_line)
+        self.cur_env = env
         m = getattr(self, "s_" + type(st).__name__, None)
         if m is None:
             raise Unsupported(f"statement {type(st).__name__} at line "
@@ -623,7 +664,11 @@ class Interp:
         # Only the shapes used in the verified functions: the body is run;
         # a RaiseEx whose class is named by a handler transfers control.
         try:
-            self.exec_block(st.body, env)
+            self.try_depth += 1
+            try:
+                self.exec_block(st.body, env)
+            finally:
+                self.try_depth -= 1
         except RaiseEx as r:
             for h in st.handlers:
                 names = []
@@ -1302,6 +1347,13 @@ class Interp:
             return self.V.lib.construct(self, callee, args, kwargs)
         if isinstance(callee, self.V.lib.FuncVal):
             return callee.apply(self, args[0])
+        if isinstance(callee, Opaque):
+            # call of an uninspected foreign callable (user callback,
+            # timedelta method, ...): result uninspected; the arguments may
+            # be read by it (listed as an assumption: it does not mutate
+            # modelled state)
+            self.stats.lib_used.add(f"opaque-call:{callee.what}")
+            return Opaque(f"{callee.what}()")
         if isinstance(callee, OptVal):
             self.oblige(f"call_not_None@{self.cur_line}", callee.present,
                         "safety")
@@ -1475,10 +1527,19 @@ class Interp:
             for j, e in enumerate(con.requires):
                 self.oblige(f"{site}:requires[{j}]", self.eval_spec(e, env),
                             "call_requires")
+            top = self.contract
+            allowed_up = set(top.raises) | set(top.extra.get("may_raise",
+                                                             {}))
             for exc, cond in con.raises.items():
                 if cond is None:
                     continue
                 c = bz(self.eval_spec(cond, env))
+                if self.try_depth > 0 or exc in allowed_up:
+                    # the caller handles / propagates it: a real branch
+                    self.spec = False
+                    if self.fork(c):
+                        raise RaiseEx(exc, self.cur_line)
+                    continue
                 self.oblige(f"{site}:no_{exc}", z3.Not(c), "call_noraise")
             old = self.snapshot(env)
             n_pc_before = len(self.pc)
